@@ -647,8 +647,12 @@ def main(tier, replay=None):
                                                      cs[0].get("observed", "")[:200]))
     for k, n in sorted(devcount.items()):
         C.log("[c12] recorded deviation %s observed on %d observation(s)" % (k, n))
+    stale_by_key = {}
     for k, vs in stale.items():
-        C.log("[c12] deviation %s predicted but the property held on %d document(s), e.g. %s" % (k, len(vs), vs[0][:400]))
+        for key in k.split(","):
+            stale_by_key.setdefault(key, []).extend(vs)
+    for k, vs in sorted(stale_by_key.items()):
+        C.log("[c12] deviation %s predicted but the property held on %d document(s), e.g. %s" % (k, len(vs), vs[0][:300]))
 
     code = rep.finish()
     samples = samples[:5] + dev_samples[:3]
@@ -674,7 +678,7 @@ def main(tier, replay=None):
         "documents_by_element_depth": dict(sorted(bydepth.items())),
         "documents_by_predicted_outcome": dict(sorted(bykind.items())),
         "program_route": prog_states,
-        "deviation_predicted_but_property_held": {k: len(v) for k, v in stale.items()},
+        "deviation_predicted_but_property_held": {k: len(v) for k, v in sorted(stale_by_key.items())},
         "known_deviation_cases": devcount,
         "exhaustive": False,
         "exhaustive_note": "the mc_* configurations enumerate their bounded document domain completely; string "
